@@ -304,16 +304,28 @@ let vfmode file =
              let seconds = float_of_string (String.sub tok 3 (String.length tok - 3)) in
              let rates = List.map (fun t -> match String.split_on_char ':' t with
                                    | [_; _; r; _; _; _] -> float_of_string r | _ -> 1.0) !refline in
-             if seconds < 0.0 then show tok (-131) (-1) time implraw else begin
+             let is_ts = String.sub tok 0 3 = "ts:" in
+             (* model-only line for sample-accurate time seeks: theorem hypotheses for the converted target *)
+             let thm_line target =
+               if is_ts then begin
+                 let half = iz s.v_hs = 1 in
+                 let ok = (match target with
+                           | Some t -> if half then seek_hyps_h s (zi t) else seek_hyps s (zi t)
+                           | None -> false) in
+                 Printf.printf "%s %s %d %d\n" (if half then "thmh" else "thm") tok (if ok then 1 else 0)
+                   (match target with Some t -> t | None -> -1)
+               end in
+             if seconds < 0.0 then (thm_line None; show tok (-131) (-1) time implraw) else begin
                let rec go ls rs tt pt = match ls, rs with
                  | l :: lr, r :: rr ->
                      let addsec = float_of_int (iz l.li_len) /. r in
                      if seconds < tt +. addsec then Some (r, tt, pt) else go lr rr (tt +. addsec) (pt + iz l.li_len)
                  | _, _ -> None in
                match go s.v_links rates 0.0 0 with
-               | None -> show tok (-131) (-1) time implraw
+               | None -> thm_line None; show tok (-131) (-1) time implraw
                | Some (r, tt, pt) ->
                    let target = Int64.to_int (Int64.of_float (float_of_int pt +. (seconds -. tt) *. r)) in
+                   thm_line (Some target);
                    let (rc, s') = (if String.sub tok 0 3 = "ts:" then pcm_seek s (zi target) else pcm_seek_page s (zi target)) in
                    st := Some s'; show tok (iz rc) (-1) time implraw
              end
